@@ -497,7 +497,7 @@ theorem processMessageL_interp_error_run_pure (L : Limits) (env : PEnv) (orc : E
     (orcl : Nat → Call → Res) :
     (runOracle orcl (processMessageL L env orc expr md name st) 0 []).1 = ({ st with error := true }, md) ∧
     (∀ x ∈ (runOracle orcl (processMessageL L env orc expr md name st) 0 []).2,
-      ParseCall d x.1 ∧ x.1.mutating = false ∧ x.1 ≠ .fork) ∧
+      ParseCall d x.1 ∧ x.1.mutating = false ∧ x.1.isFork = false) ∧
     ∃ T, (runOracle orcl (processMessageL L env orc expr md name st) 0 []).2 =
         (runOracle orcl (messageParsePL L d md.path name content) 0 []).2 ++ T ∧ ∀ x ∈ T, IsClose x.1 := by
   have hev' : (Own.runO orcl (evalPL L (msgEnv env orc p) expr (parseMessage content) mf)
